@@ -64,9 +64,13 @@ def build_tables(d):
 def ensure_samples(nmods):
     """producer-compiled modules (repo independent): work/pyc/<v>/*.pyc"""
     res = {}
+    import hashlib
+    h = hashlib.sha1()
+    for f in sorted(glob.glob(str(lib.VERIF / "samples" / "*.py"))):
+        h.update(os.path.basename(f).encode() + b"\0" + open(f, "rb").read())
     for v in lib.available(lib.ALL_VERSIONS):
         out = lib.WORK / "pyc" / v
-        stamp = out / (".done-%d" % nmods)
+        stamp = out / (".done-%d-%s" % (nmods, h.hexdigest()[:10]))      # a new or changed sample recompiles the set
         if not stamp.exists():
             lib.run_py(v, lib.HARNESS / "compile_samples.py", [out, lib.VERIF / "samples", nmods], timeout=1800)
             stamp.write_text("ok")
